@@ -8,7 +8,7 @@ git -C /repo worktree add -q --detach "$WT" HEAD || exit 3
 trap 'git -C /repo worktree remove --force "$WT" 2>/dev/null' EXIT
 git -C "$WT" apply "$P" || { echo "patch does not apply"; exit 3; }
 for id in "$@"; do
-  out=$(VERIF_REPO="$WT" /verif/check $id --tier quick --no-evidence 2>&1); rc=$?
+  out=$(VERIF_REPO="$WT" "${VERIF_DIR:-/verif}"/check $id --tier quick --no-evidence 2>&1); rc=$?
   echo "$id exit=$rc"; echo "$out" | grep -E "^(VIOLATION|KNOWN|FAULT)|clause=" | head -8 | sed 's/^/   /'
   [ $rc = 2 ] && echo "$out" | tail -15
 done
